@@ -443,6 +443,277 @@ def _job(args):
     return [{"call": c, "obs": o} for c, o in zip(calls, res)]
 
 
+# ---------------------------------------------------------------------------------------------------------------------------------------
+# products of module base with sparse (and dense) operands: base.gemv / base.symv / base.gemm / base.syrk   (Blas.tla: SPGEMV .. SPSYRK)
+SP = ["sp_gemv", "sp_symv", "sp_gemm", "sp_syrk", "sp_axpy"]
+SP_KW = {"sp_gemv": ["trans", "alpha", "beta", "m", "n", "incx", "incy", "offsetA", "offsetx", "offsety"],
+         "sp_symv": ["uplo", "alpha", "beta", "n", "incx", "incy", "offsetA", "offsetx", "offsety"],
+         "sp_gemm": ["transA", "transB", "alpha", "beta", "partial"], "sp_syrk": ["uplo", "trans", "alpha", "beta", "partial"], "sp_axpy": ["alpha", "partial"]}
+SP_POS = {"sp_gemv": ["A", "x", "y"], "sp_symv": ["A", "x", "y"], "sp_gemm": ["A", "B", "C"], "sp_syrk": ["A", "C"], "sp_axpy": ["x", "y"]}
+
+
+def sp_mat(rnd, tc, nr, nc, sp):
+    """an nr x nc operand given by its dense image; a sparse one stores the cells of `pat` (which may hold explicit zeros)"""
+    dens = rnd.choice([0.3, 0.6, 1.0])
+    pat = [1 if (not sp or rnd.random() < dens) else 0 for _ in range(nr * nc)]
+    d = [rnd_val(rnd, tc) if q else [0, 0] for q in pat]
+    return {"nr": nr, "nc": nc, "d": d, "sp": 1 if sp else 0, "pat": pat}
+
+
+def gen_sp_call(rnd, f):
+    a = base_args()
+    a["partial"] = False
+    b = {}
+    tc = rnd.choice(["d", "z"])
+    if f in ("sp_gemv", "sp_symv"):
+        if f == "sp_symv":
+            tc = "d"
+        nr = pick_dim(rnd)
+        nc = nr if (f == "sp_symv" and rnd.random() < 0.9) else pick_dim(rnd)
+        sp = rnd.random() < 0.7
+        b["A"] = sp_mat(rnd, tc, nr, nc, sp)
+        r = rnd.random()
+        oi = oj = 0
+        m, n = nr, nc
+        if r < 0.5:
+            pass                                           # whole matrix, default dimensions
+        elif r < 0.9 and nr > 0 and nc > 0:
+            oi, oj = rnd.randrange(nr), rnd.randrange(nc)  # a block inside the matrix
+            m, n = rnd.randint(0, nr - oi), rnd.randint(0, nc - oj)
+            if f == "sp_symv":
+                m = n = min(m, n)
+            a["offsetA"] = oj * nr + oi
+            a["m"], a["n"] = m, n
+            if rnd.random() < 0.3:
+                a["m" if rnd.random() < 0.5 else "n"] += 1  # may leave the matrix: refused, or (sparse, row wrap) outside the documented requirement
+        else:
+            m, n = rnd.randint(0, nr + 1), rnd.randint(0, nc + 1)
+            if f == "sp_symv":
+                m = n
+            a["m"], a["n"] = m, n
+            a["offsetA"] = rnd.choice([0, 1, -1, nr, nr * nc])
+        if f == "sp_symv":
+            del_m = a.pop("m"); a["m"] = -1
+            a["uplo"] = flag(rnd, ["L", "U"])
+            lx = ly = (nr if a["n"] < 0 else a["n"])
+        else:
+            a["trans"] = flag(rnd, ["N", "T", "C"])
+            mm = nr if a["m"] < 0 else a["m"]
+            nn = nc if a["n"] < 0 else a["n"]
+            lx, ly = (nn, mm) if a["trans"] == "N" else (mm, nn)
+        a["incx"], a["incy"] = pick_inc(rnd), pick_inc(rnd)
+        a["offsetx"], a["offsety"] = pick_off(rnd), pick_off(rnd)
+        for nm, l, ik, ok in (("x", lx, "incx", "offsetx"), ("y", ly, "incy", "offsety")):
+            bb = buf(rnd, tc, need_vec(a[ok], a[ik] or 1, l))
+            bb["sp"] = 0
+            b[nm] = bb
+    elif f == "sp_axpy":
+        nr, nc = pick_dim(rnd), pick_dim(rnd)
+        sx, sy = rnd.random() < 0.6, rnd.random() < 0.6
+        b["x"] = sp_mat(rnd, tc, nr, nc, sx)
+        r = rnd.random()
+        b["y"] = sp_mat(rnd, tc, nr + (1 if r < 0.04 else 0), nc + (1 if 0.04 <= r < 0.08 else 0), sy)
+        if 0.08 <= r < 0.1:
+            b["y"] = sp_mat(rnd, tc, nc, nr, sy)
+        a["partial"] = bool(sy and rnd.random() < 0.5) or rnd.random() < 0.05
+        b["Cmask"] = {"nr": b["y"]["nr"], "nc": b["y"]["nc"], "d": [[q, 0] for q in b["y"]["pat"]], "sp": 0}
+    else:
+        sA, sB, sC = (rnd.random() < 0.6 for _ in range(3))
+        if f == "sp_gemm":
+            a["transA"], a["transB"] = flag(rnd, ["N", "T", "C"]), flag(rnd, ["N", "T", "C"])
+            m, k, n = pick_dim(rnd), pick_dim(rnd), pick_dim(rnd)
+            kb, mc, ncc = k, m, n
+            r = rnd.random()
+            if r < 0.04:
+                kb = k + 1
+            elif r < 0.08:
+                mc = m + 1
+            elif r < 0.12:
+                ncc = max(0, n - 1)
+            b["A"] = sp_mat(rnd, tc, *((m, k) if a["transA"] == "N" else (k, m)), sp=sA)
+            b["B"] = sp_mat(rnd, tc, *((kb, n) if a["transB"] == "N" else (n, kb)), sp=sB)
+            b["C"] = sp_mat(rnd, tc, mc, ncc, sp=sC)
+        else:
+            if sA or sC:
+                tc = "d"                                   # base.syrk: not implemented for complex sparse operands
+            a["uplo"] = flag(rnd, ["L", "U"])
+            a["trans"] = flag(rnd, ["N", "T", "C"] if tc == "d" else ["N", "T"], bad=("X" if tc == "d" or rnd.random() < 0.5 else "C"))
+            n, k = pick_dim(rnd), pick_dim(rnd)
+            nn = n + 1 if rnd.random() < 0.06 else n
+            b["A"] = sp_mat(rnd, tc, *((n, k) if a["trans"] == "N" else (k, n)), sp=sA)
+            b["C"] = sp_mat(rnd, tc, nn, n if rnd.random() < 0.97 else n + 1, sp=sC)
+        a["partial"] = bool(sC and rnd.random() < 0.5) or rnd.random() < 0.05
+        b["Cmask"] = {"nr": b["C"]["nr"], "nc": b["C"]["nc"], "d": [[q, 0] for q in b["C"]["pat"]], "sp": 0}
+    a["alpha"], a["beta"] = rnd_scalar(rnd, tc), rnd_scalar(rnd, tc)
+    return {"f": f, "tc": tc, "a": a, "b": b}
+
+
+def _run_sp_calls(calls):
+    from cvxopt import matrix, spmatrix, base
+    fn = {"sp_gemv": base.gemv, "sp_symv": base.symv, "sp_gemm": base.gemm, "sp_syrk": base.syrk, "sp_axpy": base.axpy}
+    out = []
+    for c in calls:
+        tc = c["tc"]
+        M = {}
+        for nm, bb in c["b"].items():
+            if nm == "Cmask":
+                continue
+            vals = [complex(v[0], v[1]) if tc == "z" else float(v[0]) for v in bb["d"]]
+            if bb["sp"]:
+                idx = [i for i, q in enumerate(bb["pat"]) if q]
+                M[nm] = spmatrix([vals[i] for i in idx], [i % bb["nr"] for i in idx], [i // bb["nr"] for i in idx], (bb["nr"], bb["nc"]), tc)
+            else:
+                M[nm] = matrix(vals, (bb["nr"], bb["nc"]), tc)
+        a = c["a"]
+        kw = {}
+        for k in SP_KW[c["f"]]:
+            v = a[k]
+            if k in ("alpha", "beta"):
+                if v != [D, D]:
+                    kw[k] = _scalar(v, tc)
+            elif k == "partial":
+                if v or c.get("explicit_flags"):
+                    kw[k] = v
+            elif k in FLAG_DEFAULT:
+                if v != FLAG_DEFAULT[k] or c.get("explicit_flags"):
+                    kw[k] = v
+            elif v != INT_DEFAULT[k] or c.get("explicit_ints"):
+                kw[k] = v
+        o = {}
+        try:
+            r = fn[c["f"]](*[M[p] for p in SP_POS[c["f"]]], **kw)
+            if r is not None:
+                o["ret"] = repr(r)
+        except Exception as e:
+            o["raised"] = type(e).__name__
+        o["bufs"] = {}
+        o["pat"] = {}
+        o["ccs"] = {}
+        for nm in M:
+            X = M[nm]
+            o["tcs"] = X.typecode
+            dn = matrix(X) if isinstance(X, spmatrix) else X
+            o["bufs"][nm] = [[complex(v).real, complex(v).imag] for v in dn]
+            if isinstance(X, spmatrix):
+                I, J = list(X.I), list(X.J)
+                cells = [j * X.size[0] + i for i, j in zip(I, J)]
+                o["pat"][nm] = cells
+                o["ccs"][nm] = cells == sorted(set(cells)) and all(0 <= i < X.size[0] for i in I) and all(0 <= j < X.size[1] for j in J) \
+                    and X.size == (c["b"][nm]["nr"], c["b"][nm]["nc"]) and X.typecode == tc
+            elif X.size != (c["b"][nm]["nr"], c["b"][nm]["nc"]) or X.typecode != tc:
+                o["ccs"][nm] = False
+        out.append(o)
+    return out
+
+
+def _job_sp(args):
+    from harness import isolate
+    seed, per = args
+    rnd = random.Random(seed)
+    calls = []
+    for f in SP:
+        for _ in range(per):
+            c = gen_sp_call(rnd, f)
+            c["explicit_ints"] = rnd.random() < 0.15
+            c["explicit_flags"] = rnd.random() < 0.15
+            calls.append(c)
+    res = []
+    for c0 in range(0, len(calls), 100):
+        chunk = calls[c0:c0 + 100]
+        st, r = isolate.run_isolated(_run_sp_calls, chunk, timeout=120)
+        if st == "ok":
+            res += r
+        else:
+            for c in chunk:
+                st1, r1 = isolate.run_isolated(_run_sp_calls, [c], timeout=20)
+                res += r1 if st1 == "ok" else [{"crash": "%s:%s" % (st1, r1)}]
+    return [{"call": c, "obs": o} for c, o in zip(calls, res)]
+
+
+def describe_sp(c):
+    a = c["a"]
+    shown = {k: a[k] for k in SP_KW[c["f"]] if not (k in INT_DEFAULT and a[k] == INT_DEFAULT[k]) and not (k in FLAG_DEFAULT and a[k] == FLAG_DEFAULT[k])
+             and a[k] != [D, D] and a[k] is not False}
+    return "base.%s(%s; %s) tc=%s" % (c["f"][3:], ", ".join("%s %s %dx%d" % (nm, "sparse" if bb["sp"] else "dense", bb["nr"], bb["nc"])
+                                                          for nm, bb in c["b"].items() if nm != "Cmask"), shown, c["tc"])
+
+
+def judge_sp(ck, items, exp, stats):
+    for x, e in zip(items, exp):
+        c, o = x["call"], x["obs"]
+        f = c["f"][3:]
+        ck.evaluations += 1
+        if "crash" in o:
+            ck.violation("base|%s|hang-or-crash" % f, "%s killed the interpreter (%s)" % (describe_sp(c), o["crash"]), {"call": c})
+            continue
+        names = [nm for nm in c["b"] if nm != "Cmask"]
+        before = {nm: [[float(v[0]), float(v[1])] for v in c["b"][nm]["d"]] for nm in names}
+        patb = {nm: [i for i, q in enumerate(c["b"][nm]["pat"]) if q] for nm in names if c["b"][nm]["sp"]}
+        stats[e["v"]] = stats.get(e["v"], 0) + 1
+        kind = "".join("s" if c["b"][nm]["sp"] else "d" for nm in names)
+        ck.nontrivial("base.%s|%s|%s|%s|%s%s" % (f, c["tc"], kind, "".join(str(c["a"][k]) for k in ("trans", "transA", "transB", "uplo") if k in SP_KW[c["f"]]),
+                                                  e["v"], "|partial" if c["a"]["partial"] else ""))
+        if e["v"] == "unspecified":
+            continue                                        # outside the documented requirement of the sparse version: nothing is promised
+        bad_ccs = [nm for nm, ok in o.get("ccs", {}).items() if ok is False]
+        if bad_ccs:
+            ck.violation("base|%s|invalid-matrix-after-call" % f, "%s left %s with a different size / typecode or an invalid compressed-column structure" % (describe_sp(c), bad_ccs),
+                         {"call": c, "obs": o})
+            continue
+        unchanged = all(o["bufs"][nm] == before[nm] for nm in names) and all(o["pat"].get(nm) == patb[nm] for nm in patb)
+        if e["v"] == "err":
+            if "raised" not in o:
+                ck.violation("base|%s|accepts-invalid-arguments" % f, "%s was accepted; the arguments are inconsistent (dimensions / footprint / flags / types)" % describe_sp(c), {"call": c, "obs": o})
+            elif o["raised"] not in ("TypeError", "ValueError"):
+                ck.violation("base|%s|wrong-exception|%s" % (f, o["raised"]), "%s raised %s" % (describe_sp(c), o["raised"]), {"call": c, "obs": o})
+            elif not unchanged:
+                ck.violation("base|%s|rejected-call-modified-arguments" % f, "%s raised %s but changed an argument" % (describe_sp(c), o["raised"]), {"call": c, "obs": o})
+            continue
+        if e["v"] == "either":
+            if not unchanged:
+                ck.violation("base|%s|empty-call-modified-arguments" % f, "%s addresses nothing but changed an argument" % describe_sp(c), {"call": c, "obs": o})
+            continue
+        if "raised" in o:
+            ck.violation("base|%s|rejects-valid-arguments|%s" % (f, o["raised"]), "%s raised %s; the arguments are consistent" % (describe_sp(c), o["raised"]), {"call": c, "obs": o})
+            continue
+        want = {nm: [[float(v[0]), float(v[1])] for v in e["out"][nm]] for nm in names}
+        if c["f"] == "sp_syrk" and c["b"]["C"]["sp"] and not c["a"]["partial"]:
+            # a sparse C is REPLACED by the updated triangle: what happens to stored entries of the other triangle is not documented
+            # (Blas.tla, SPSYRK) - only the uplo triangle is compared
+            n_ = c["b"]["C"]["nr"]
+            for i in range(n_ * n_):
+                r_, c_ = i % n_, i // n_
+                if (r_ < c_) if c["a"]["uplo"] == "L" else (r_ > c_):
+                    want["C"][i] = o["bufs"]["C"][i]
+        if o["bufs"] != want:
+            nm = [n for n in want if o["bufs"][n] != want[n]][0]
+            diff = [i for i, (p, q) in enumerate(zip(o["bufs"][nm], want[nm])) if p != q]
+            ck.violation("base|%s|wrong-result" % f, "%s: cells %s of %s are %s, specified %s" % (
+                describe_sp(c), diff[:6], nm, [o["bufs"][nm][i] for i in diff[:6]], [want[nm][i] for i in diff[:6]]), {"call": c, "obs": o, "expected": e})
+            continue
+        outn = "y" if c["f"] == "sp_axpy" else "C"
+        for nm in patb:
+            if nm != outn and o["pat"].get(nm) != patb[nm]:
+                ck.violation("base|%s|input-pattern-changed" % f, "%s changed the sparsity pattern of %s" % (describe_sp(c), nm), {"call": c, "obs": o})
+        if outn in patb and c["a"]["partial"] and o["pat"].get(outn) != patb[outn]:
+            ck.violation("base|%s|partial-changed-pattern" % f, "%s (partial=True) changed the sparsity pattern of %s" % (describe_sp(c), outn), {"call": c, "obs": o})
+        if "ret" in o:
+            ck.violation("base|%s|returns-a-value" % f, "%s returned %s" % (describe_sp(c), o["ret"]), {"call": c, "obs": o})
+
+
+def run_base_products(ck, seed, sper):
+    """the family above, judged by TLC (MC_Blas); used by C16 (the mixed sparse/dense products are part of that property)"""
+    sparts = pmap(ck, _job_sp, [(seed * 1000 + 500 + i, sper) for i in range(16)], "baseprod", timeout=PMAP_TIMEOUT, ctx="spawn")
+    sitems = [x for p in sparts for x in p]
+    spay = [{"f": x["call"]["f"], "tc": x["call"]["tc"], "a": x["call"]["a"],
+             "b": {nm: {k: v for k, v in bb.items() if k != "pat"} for nm, bb in x["call"]["b"].items()}} for x in sitems]
+    sexp = c12.tlc_batch(ck, "MC_Blas", "sp", spay, chunk=600, par=14)
+    spstats = {}
+    judge_sp(ck, sitems, sexp, spstats)
+    ck.extra["base_products"] = spstats
+    return len(sitems)
+
+
 def cls(c):
     a = c["a"]
     dims = ",".join("%s=%s" % (k, "dflt" if a[k] == -1 else min(a[k], 2)) for k in ("m", "n", "k") if k in KW[c["f"]] or k in [p[1:] for p in POS[c["f"]]])
